@@ -590,11 +590,20 @@ class Interp:
                 if l_.get("v") == "hole" and r_.get("v") in ("char", "int"):
                     lit = repr(r_["c"]) if r_["v"] == "char" else repr(r_["n"])
                     yes, no = (then_, else_) if cv["op"] == "==" else (else_, then_)
+                    subj = canon(l_)
+                    # the same test met again on the path (values are immutable: same canonical form, same value)
+                    if (subj, (lit,)) in s1.conds:
+                        out += run(yes, s1)
+                        continue
+                    if (subj, lit) in s1.env.get("__neq", ()):
+                        out += run(no, s1)
+                        continue
                     a = s1.fork()
-                    a.conds = a.conds + ((canon(l_), (lit,)),)
+                    a.conds = a.conds + ((subj, (lit,)),)
                     out += run(yes, a)
                     b = s1.fork()
-                    b.conds = b.conds + ((canon(l_), ("_",)),)
+                    b.conds = b.conds + ((subj, ("_",)),)
+                    b.env["__neq"] = tuple(b.env.get("__neq", ())) + ((subj, lit),)
                     out += run(no, b)
                     continue
             # Option tests: `o.is_none()`, `o.is_some()`, `map.contains_key(k)` are the Some/None cases of `o` / `map.get(k)`
@@ -612,6 +621,12 @@ class Interp:
                 b = s1.fork()
                 b.conds = b.conds + ((canon(opt), "None"),)
                 out += run(none_branch, b)
+                continue
+            if (canon(cv), True) in s1.conds:
+                out += run(then_, s1)
+                continue
+            if (canon(cv), False) in s1.conds:
+                out += run(else_, s1)
                 continue
             a = s1.fork()
             a.conds = a.conds + ((canon(cv), True),)
@@ -995,6 +1010,13 @@ class Interp:
         an index computed from a condition (`usize::from(flag)`, `flag as usize`) splits the path on that condition."""
         out = []
         for s1, base in self.ev(e["e"], st):
+            if isinstance(base, dict) and base.get("v") == "fieldref":
+                base = self._field_value(base["field"], s1)
+            if isinstance(base, dict) and base.get("v") == "hole" and base.get("kind") == "field" and re.match(r"(std::collections::)?(Hash|BTree)Map<", norm_ty(((s1.env.get("__layout") or {}).get("paths") or {}).get(base.get("field")) or "")):
+                # `map[&k]` is `*map.get(&k).unwrap()` (Index for maps panics on a missing key)
+                get = {"k": "mcall", "l": e.get("l"), "recv": e["e"], "m": "get", "targs": [], "args": [e["idx"]]}
+                out += self.ev({"k": "mcall", "l": e.get("l"), "recv": get, "m": "unwrap", "targs": [], "args": []}, s1)
+                continue
             if not (isinstance(base, dict) and base.get("v") == "list" and not base.get("open") and not base.get("field")):
                 out.append((s1, H("opaque", src(e))))
                 continue
@@ -1043,12 +1065,21 @@ class Interp:
         *appends* to strings, lists and local maps is recorded as the per-element contribution, exactly like
         `iter().map(..)`; anything else a body does to the enclosing state cannot be summarised and is reported."""
         out = []
+        idx = None
+        it_e = e["iter"]
+        pt_ = e["pat"]
+        while pt_["k"] in ("typed", "paren"):
+            pt_ = pt_["pat"]
+        if it_e.get("k") == "mcall" and it_e["m"] == "enumerate" and not it_e["args"] and pt_["k"] == "tuple" and len(pt_["elems"]) == 2 and pt_["elems"][0]["k"] in ("ident", "wild"):
+            # `for (i, x) in ITER.enumerate()`: the loop over ITER with the position of the element at hand
+            idx = pt_["elems"][0].get("name") or "_"
+            e = dict(e, iter=it_e["recv"], pat=pt_["elems"][1], enum_iter=it_e)
         for s1, it in self.ev(e["iter"], st):
             if isinstance(it, dict) and it.get("v") == "fieldref":
                 it = self._field_value(it["field"], s1)
             if isinstance(it, dict) and it.get("v") == "list" and not it.get("open") and not it.get("field"):
                 states = [s1]
-                for item in it["items"]:
+                for i_, item in enumerate(it["items"]):
                     nxt = []
                     for s2 in states:
                         if s2.ret is not None:
@@ -1059,6 +1090,8 @@ class Interp:
                             continue
                         a = s2.fork()
                         self.bind_pattern(e["pat"], item, a)
+                        if idx is not None:
+                            a.env[idx] = {"v": "int", "n": i_, "src": idx}
                         for s3, _ in self.ev(e["body"], a):
                             if isinstance(s3.ret, dict) and s3.ret.get("v") == "loopctl":
                                 kind = s3.ret["kind"]
@@ -1069,10 +1102,10 @@ class Interp:
                     states = nxt
                 out += [(s2, {"v": "unit"}) for s2 in states]
                 continue
-            out += self._for_symbolic(e, s1, it)
+            out += self._for_symbolic(e, s1, it, idx)
         return out
 
-    def _for_symbolic(self, e, st, coll):
+    def _for_symbolic(self, e, st, coll, idx=None):
         elem = H("elem", "element of " + ((coll.get("src") if isinstance(coll, dict) else None) or "collection"), of=coll, ty=self._elem_ty(coll) if isinstance(coll, dict) else None)
         if isinstance(coll, dict) and coll.get("v") == "hole" and coll.get("kind") == "payload":
             elem = H("payload", (coll.get("src") or "") + "[]", enum=None, ty=self._elem_ty(coll), of=coll.get("src"), elem_of=coll)
@@ -1084,26 +1117,59 @@ class Interp:
         base = st.fork()
         base.conds = ()
         base.effects = []
-        body_start = base.fork()
-        self.bind_pattern(e["pat"], elem, body_start)
         snap_env = {k: v for k, v in st.env.items()}
         snap_buf = list(st.buf)
         # separator bookkeeping: `if !acc.is_empty() { acc.push(' ') }` in front of the pieces appended to an accumulator that
-        # is empty when the loop starts is `join(' ')` of the (non-empty) pieces; the statement is taken out of the body and
-        # the separator is attached to the accumulated part
+        # is empty when the loop starts is `join(' ')` of the (non-empty) pieces; `if i > 0 { acc.push(' ') }` on the position
+        # of the element is `join(' ')` whatever the pieces are; the statement is taken out of the body and the separator is
+        # attached to the accumulated part.  It must stand in front of every other use of the accumulator.
         seps = {}
+        exact_sep = set()
         body_ = e["body"]
         if body_.get("k") == "block":
             kept = []
             for st_ in body_["stmts"]:
                 sp = self._separator_stmt(st_, snap_env)
-                if sp is not None and sp[0] not in seps:
+                exact = False
+                if sp is None and idx is not None:
+                    sp = self._index_separator_stmt(st_, idx, snap_env)
+                    exact = sp is not None
+                if sp is not None and sp[0] not in seps and not any(self._mentions(k_, sp[2]) for k_ in kept):
                     seps[sp[0]] = sp[1]
+                    if exact:
+                        exact_sep.add(sp[0])
                     continue
                 kept.append(st_)
             if seps:
                 body_ = dict(body_, stmts=kept)
-        results = self.ev(body_, body_start)
+        # a loop over `X.iter().map(f)` / `.filter_map(f)` is the loop over X with f applied first: one run of the body per
+        # alternative of f (an element filtered out contributes nothing, not even a separator)
+        compose = None
+        if isinstance(coll, dict) and coll.get("v") == "mapped" and coll.get("how") in ("map", "filter_map") and not coll.get("collected") and not coll.get("prefix") and set(coll.get("adaptors", [])) <= {"cloned", "peekable"}:
+            compose = coll["how"]
+            for c0, v0 in coll["elems"]:
+                if compose == "filter_map" and not (isinstance(v0, dict) and v0.get("v") in ("some", "none")):
+                    compose = None
+                    break
+        results = []
+        filtered = []
+        if compose is None:
+            body_start = base.fork()
+            self.bind_pattern(e["pat"], elem, body_start)
+            if idx is not None:
+                body_start.env[idx] = H("index", idx, of=coll)
+            results = self.ev(body_, body_start)
+        else:
+            for c0, v0 in coll["elems"]:
+                if compose == "filter_map" and v0["v"] == "none":
+                    filtered.append(c0)
+                    continue
+                body_start = base.fork()
+                body_start.conds = tuple(c0)
+                self.bind_pattern(e["pat"], v0["x"] if compose == "filter_map" else v0, body_start)
+                if idx is not None:
+                    body_start.env[idx] = H("index", idx, of=coll)
+                results += self.ev(body_, body_start)
         # which accumulators changed, and by what, on each path of the body
         deltas = {}  # name -> [(conds, appended value)]
         problems = []
@@ -1147,18 +1213,24 @@ class Interp:
         for pr in problems:
             if pr not in out_state.unknown:
                 out_state.unknown.append("for-loop over a symbolic collection: " + pr)
+        under = coll["of"] if compose is not None else coll
         for name, alts in deltas.items():
             if all(d is None for _, d in alts):
                 continue
-            mapped = {"v": "mapped", "of": coll, "elems": [(cnd, d if d is not None else S([])) for cnd, d in alts], "how": "for", "src": src(e["iter"])}
+            if compose == "filter_map":
+                el_ = [(cnd, {"v": "some", "x": d if d is not None else S([])}) for cnd, d in alts] + [(c0, {"v": "none"}) for c0 in filtered]
+            else:
+                el_ = [(cnd, d if d is not None else S([])) for cnd, d in alts]
+            mapped = {"v": "mapped", "of": under, "elems": el_, "how": compose or "for", "src": src(e["iter"])}
+            plain = {"v": "mapped", "of": coll, "elems": [(cnd, d if d is not None else S([])) for cnd, d in alts], "how": "for", "src": src(e["iter"])}
             if name == "__buf":
-                out_state.buf = out_state.buf + [("join", mapped, "")]
+                out_state.buf = out_state.buf + [("join", mapped, seps.get("__buf", ""))]
                 continue
             before = snap_env[name]
             kinds = {self._delta_kind(d) for _, d in alts if d is not None}
             if kinds == {"str"} and is_str(before):
                 sep_ = seps.get(name, "")
-                if sep_:
+                if sep_ and name not in exact_sep:
                     # join semantics need every appended piece to be non-empty (an empty first piece would lose its separator)
                     if not all(d is None or any(p_[0] == "c" and p_[1] for p_ in d["parts"]) for _, d in alts):
                         out_state.unknown.append("for-loop over a symbolic collection: separator logic on `%s` with a piece that may be empty" % name)
@@ -1169,6 +1241,9 @@ class Interp:
                 out_state.env[name] = {"v": "mapped", "of": coll, "elems": [(cnd, {"v": "tuple", "xs": list(d["entries"][0])} if d is not None and len(d["entries"]) == 1 else {"v": "unit"}) for cnd, d in alts], "how": "for-insert", "src": src(e["iter"]), "collected": "map"}
             else:
                 out_state.unknown.append("for-loop over a symbolic collection: `%s` accumulates values of mixed kinds" % name)
+        for name in seps:
+            if name not in deltas or all(d is None for _, d in deltas[name]):
+                out_state.unknown.append("for-loop over a symbolic collection: separator pushed on `%s` but nothing else" % name)
         res = [(out_state, {"v": "unit"})]
         for cnd, rv in err_paths:
             b = st.fork()
@@ -1176,6 +1251,47 @@ class Interp:
             b.ret = rv
             res.append((b, {"v": "never"}))
         return res
+
+    def _mentions(self, node, name):
+        return bool(find_all(node, lambda n: isinstance(n, dict) and n.get("k") == "path" and n.get("segs") == [name]))
+
+    def _index_separator_stmt(self, st_, idx, env):
+        """(accumulator, separator text, accumulator variable) for `if IDX > 0 { ACC.push(C); }` with IDX the position of the
+        element in the loop and ACC a local string or the output buffer, else None"""
+        if st_.get("k") != "expr" or st_["e"].get("k") != "if" or st_["e"].get("else") is not None:
+            return None
+        c_ = st_["e"]["cond"]
+        while c_.get("k") == "paren":
+            c_ = c_["e"]
+        if c_.get("k") != "binary":
+            return None
+        l_, r_, op = c_["lhs"], c_["rhs"], c_["op"]
+        if rx.var_name(r_) == idx:
+            l_, r_ = r_, l_
+            op = {"<": ">", ">": "<", "<=": ">=", ">=": "<="}.get(op, op)
+        if rx.var_name(l_) != idx:
+            return None
+        n_ = rx.int_const(r_)
+        if not ((op in (">", "!=") and n_ == 0) or (op == ">=" and n_ == 1)):
+            return None
+        th = [x for x in st_["e"]["then"]["stmts"] if x["k"] != "item"]
+        if len(th) != 1 or th[0]["k"] != "expr":
+            return None
+        pe_ = th[0]["e"]
+        if not (pe_.get("k") == "mcall" and pe_["m"] in ("push", "push_str") and len(pe_["args"]) == 1):
+            return None
+        acc = rx.var_name(pe_["recv"])
+        cur = env.get(acc) if acc else None
+        if is_str(cur):
+            name = acc
+        elif isinstance(cur, dict) and cur.get("v") == "bufref":
+            name = "__buf"
+        else:
+            return None
+        a0 = rx.peel(pe_["args"][0])
+        if a0.get("k") == "lit" and a0.get("t") in ("char", "str") and a0["v"]:
+            return name, a0["v"], acc
+        return None
 
     def _separator_stmt(self, st_, env):
         """(accumulator name, separator text) for `if !ACC.is_empty() { ACC.push(C); }` with ACC a local string that is empty
@@ -1197,7 +1313,7 @@ class Interp:
             return None
         a0 = rx.peel(pe_["args"][0])
         if a0.get("k") == "lit" and a0.get("t") in ("char", "str") and a0["v"]:
-            return acc, a0["v"]
+            return acc, a0["v"], acc
         return None
 
     def _delta_kind(self, d):
@@ -1383,6 +1499,11 @@ class Interp:
     def ev_mcall(self, e, st):
         m = e["m"]
         recv = e["recv"]
+        if m == "for_each" and len(e["args"]) == 1 and e["args"][0].get("k") == "closure" and len(e["args"][0]["params"]) == 1:
+            # ITER.for_each(|PAT| BODY) is `for PAT in ITER { BODY }`
+            clo = e["args"][0]
+            body = clo["body"] if clo["body"].get("k") == "block" else {"k": "block", "l": clo.get("l"), "stmts": [{"k": "expr", "e": clo["body"], "semi": True}]}
+            return self.ev_for({"k": "for", "l": e.get("l"), "pat": clo["params"][0], "iter": recv, "body": body}, st)
         # buffer.push_str(X)
         out = []
         for s1, rv in self.ev(recv, st):
@@ -1572,7 +1693,7 @@ class Interp:
             return [(st, dict(rv, adaptors=rv.get("adaptors", []) + [m]))]
         if k == "mapped" and m in ("first", "last", "next"):
             return [(st, {"v": "some", "x": H("elem-of-mapped", src(e), mapped=rv, which=m)})]
-        if k == "mapped" and m == "len":
+        if m == "len" and not argv and (k in ("mapped", "self") or (k == "hole" and rv.get("kind") in ("payload", "param", "elem", "some-of"))):
             return [(st, H("len", src(e), of=rv))]
         if m == "join" and len(argv) == 1 and is_str(argv[0]):
             septext = "".join(p[1] for p in argv[0]["parts"] if p[0] == "c")
@@ -1660,7 +1781,7 @@ class Interp:
             mk = "#map:" + ent["field"]
             st.fields[mk] = [x for x in st.fields.get(mk, []) if x[0] != canon(ent["key"])] + [(canon(ent["key"]), argv[0])]
             return [(st, argv[0])]
-        if k == "entry" and m in ("or_insert", "or_insert_with") and len(argv) == 1:
+        if k == "entry" and m in ("or_insert", "or_insert_with", "or_insert_with_key") and len(argv) == 1:
             if rv["known"] is not None:
                 return [(st, rv["known"])]
             out_ = []
@@ -1669,7 +1790,7 @@ class Interp:
             out_.append((a_, some_of(rv["lookup"])))
             b_ = st.fork()
             b_.conds = b_.conds + ((canon(rv["lookup"]), "None"),)
-            vals = [(b_, argv[0])] if m == "or_insert" else self.call_closure(argv[0], [], b_)
+            vals = [(b_, argv[0])] if m == "or_insert" else self.call_closure(argv[0], [rv["key"]] if m == "or_insert_with_key" else [], b_)
             for s2, v2 in vals:
                 s2.effects.append(("insert", rv["field"], [rv["key"], v2]))
                 mk = "#map:" + rv["field"]
@@ -2259,6 +2380,10 @@ def canon(h):
     if k == "param":
         return "@%s%s" % (h.get("pos"), spec)
     if k == "call":
+        cal_ = str(h.get("callee"))
+        if re.fullmatch(r"(u8|u16|u32|u64|u128|usize|i8|i16|i32|i64|i128|isize)::from", cal_) and len(h.get("args", [])) == 1:
+            # a lossless integer widening: `u32::from(x)` is `x as u32`
+            return "(%s as %s)%s" % (canon(h["args"][0]), cal_.split("::")[0], spec)
         return "%s(%s)%s" % (ALIAS.get(h.get("callee"), h.get("callee")), ",".join(canon(a) for a in h.get("args", [])), spec)
     if k == "mcall":
         return "%s.%s(%s)%s" % (canon(h.get("recv")), h.get("method"), ",".join(canon(a) for a in h.get("args", [])), spec)
@@ -2294,10 +2419,35 @@ def canon(h):
     if k == "cond" and isinstance(h.get("of"), dict):
         return "cond(%s)" % canon(h["of"])
     if k == "len" and isinstance(h.get("of"), dict):
-        return "len(%s)" % canon(h["of"])
+        # a one-to-one map keeps the length
+        o_ = h["of"]
+        while isinstance(o_, dict) and o_.get("v") == "mapped" and o_.get("how") == "map" and not o_.get("prefix") and not (set(o_.get("adaptors", [])) - {"rev", "enumerate", "peekable", "cloned"}) and isinstance(o_.get("of"), dict):
+            o_ = o_["of"]
+        return "len(%s)" % canon(o_)
     if k in ("name", "cond", "len"):
         return "%s:%s" % (k, h.get("src"))
     return "?%s:%s" % (k, h.get("src"))
+
+
+def single_element_joins(parts, conds):
+    """On a path whose condition says the joined collection has exactly one element, `join(sep)` of the pieces is the first
+    piece: `[x].join(" ")` and `first().unwrap()` name the same text."""
+    out = []
+    for p in parts:
+        if p[0] == "join" and isinstance(p[1], dict) and p[1].get("v") == "mapped" and not p[1].get("prefix"):
+            o_ = p[1]
+            while isinstance(o_, dict) and o_.get("v") == "mapped" and not o_.get("prefix") and not (set(o_.get("adaptors", [])) - {"rev", "enumerate", "peekable", "cloned"}) and (o_.get("how") == "map" or (o_.get("how") == "for" and all(is_str(v_) for _, v_ in o_["elems"]))) and isinstance(o_.get("of"), dict):
+                o_ = o_["of"]
+            if ("len(%s)" % canon(o_), ("1",)) in conds:
+                out.append(("h", H("elem-of-mapped", "first", mapped=p[1], which="first")))
+                continue
+        if p[0] == "c" or p[0] == "h" or p[0] == "join":
+            out.append(p)
+        elif p[0] == "sub" and isinstance(p[1], dict) and is_str(p[1]):
+            out.append(("sub", dict(p[1], parts=single_element_joins(p[1]["parts"], conds))))
+        else:
+            out.append(p)
+    return out
 
 
 def canon_parts(parts):
